@@ -1537,16 +1537,12 @@ class ComputeGraph(MultiDiGraph):
 
         if label == "t":
             return label
-        if label in self._node_names:
-            n = self._node_names[label]
-            if n == 0:
-                label_new = f"{label}_v1"
-            else:
-                label_new = f"{label}_v{n + 1}"
+        label_new = label
+        while label_new in self._node_names:
+            # also skip labels that are taken by variables which are themselves called <label>_v<n>
             self._node_names[label] += 1
-        else:
-            label_new = label
-            self._node_names[label] = 0
+            label_new = f"{label}_v{self._node_names[label]}"
+        self._node_names[label_new] = 0
         return label_new
 
     @staticmethod
